@@ -183,7 +183,9 @@ func buildVSIX(env *Env, v Variant) ([]*Artifact, error) {
 			}
 			return no("[Content_Types].xml cannot be signed under OPC rules")
 		},
-		rename:      func(name, role string) (bool, string) { return yes("the referenced part is gone and an unreferenced one appeared") },
+		rename: func(name, role string) (bool, string) {
+			return yes("the referenced part is gone and an unreferenced one appeared")
+		},
 		appendAfter: [2]string{"", "bytes after the end of the ZIP are not read"},
 		gapBeforeCD: [2]string{"", "dead bytes between the last record and the central directory are never read"},
 		insertNames: []string{"inserted.dll"},
